@@ -83,6 +83,11 @@ def peg(node):
             return ("tok", kids[0][1], False, "bounded")
         if name == "combinator::value":
             return peg(kids[1])
+        if name == "combinator::recognize":
+            for k in kids:
+                if k[0] in ("call", "fn", "tuple"):
+                    return ("lex", peg(k))
+            return ("unknown", name)
         if name in TRANSPARENT:
             # the parser argument is the one that is not a str/closure
             for k in kids:
@@ -101,8 +106,8 @@ def peg(node):
 
 
 def strip(p):
-    """remove ws wrappers at the top"""
-    while p[0] == "ws":
+    """remove ws / recognize wrappers at the top"""
+    while p[0] in ("ws", "lex"):
         p = p[1]
     return p
 
@@ -115,7 +120,7 @@ def toks(p, out=None):
     elif t in ("alt", "seq"):
         for k in p[1]:
             toks(k, out)
-    elif t in ("many", "opt", "ws"):
+    elif t in ("many", "opt", "ws", "lex"):
         toks(p[1], out)
     elif t == "sep":
         toks(p[1], out)
@@ -131,7 +136,7 @@ def refs(p, out=None):
     elif t in ("alt", "seq"):
         for k in p[1]:
             refs(k, out)
-    elif t in ("many", "opt", "ws"):
+    elif t in ("many", "opt", "ws", "lex"):
         refs(p[1], out)
     elif t == "sep":
         refs(p[1], out)
@@ -215,6 +220,38 @@ def left_fold_helper_ok(h):
             it_ok = any(k == "arg" for k, info in it_src)
             if acc_ok and x_ok and it_ok:
                 ok = True
+    if not ok and not bad and len(its) == 1:
+        # second spelling:  rest.into_iter().fold / try_fold(init containing `first`, |acc, x| .. f(acc, x) ..)
+        folds_ = [c for c in h.calls if re.search(r"iter::traits::iterator::Iterator::(fold|try_fold)$", c.path or "")]
+        if len(folds_) == 1 and len(folds_[0].args) == 3:
+            fc = folds_[0]
+            recv_ok = any(k == "call" and info is its[0] for k, info in h.trace(op_base_(fc.args[0]))) and \
+                any(k == "arg" for k, info in h.trace(op_base_(its[0].args[0])))
+            # init mentions the first parameter
+            init_l = op_base_(fc.args[1])
+            init_ok = False
+            if init_l is not None:
+                d0 = h.single_def(init_l)
+                ops0 = d0[2]["ops"] if d0 and d0[1] != "term" and d0[2]["k"] == "agg" else [fc.args[1]]
+                for o in ops0:
+                    tr0 = h.trace(op_base_(o)) if op_base_(o) is not None else []
+                    if tr0 and tr0[-1] == ("arg", 1):
+                        init_ok = True
+            # the closure applies the captured function to (accumulator-derived, item)
+            cl_ok = False
+            prog_ = h.prog
+            for ch in prog_.children(h):
+                for cm in ch.calls:
+                    if not re.search(r"ops::function::(FnMut::call_mut|Fn::call|FnOnce::call_once)$", cm.path or "") or len(cm.args) != 2:
+                        continue
+                    tup = ch.single_def(op_base_(cm.args[1]))
+                    if not tup or tup[1] == "term" or tup[2]["k"] != "agg" or len(tup[2]["ops"]) != 2:
+                        continue
+                    ta = ch.trace(op_base_(tup[2]["ops"][0]))
+                    tx = ch.trace(op_base_(tup[2]["ops"][1]))
+                    if ta and tx and ta[-1] == ("arg", 2) and tx[-1] == ("arg", 3):
+                        cl_ok = True
+            ok = recv_ok and init_ok and cl_ok
     h._left_fold = ok
     return ok
 
@@ -251,6 +288,30 @@ def detect_wrapper_rules(prog, rule_fns):
             WRAPPER_RULES.add(name)
 
 
+def ctor_fns(prog):
+    """the tree-building helpers of the parser, found by what they are rather than by name: non-generic functions of the parser
+    module taking the operator text (a Span) first and returning a Value, whose body compares the lowered text with string
+    literals.  Role by the remaining parameters: (Value) unary, (Value, Value) binary, (Vec<Value>) postfix."""
+    out = {}
+    for k, f in prog.fns.items():
+        if f.crate != "milu" or not f.path.startswith("parser::") or f.kind != "Fn" or f.arg_count < 2:
+            continue
+        tys = [f.ty(f.locals[i]["ty"])["s"] for i in range(1, f.arg_count + 1)]
+        if "LocatedSpan" not in tys[0] or not f.ty(f.locals[0]["ty"])["s"].endswith("script::Value"):
+            continue
+        ncmp = len([c for c in f.calls if re.search(r"cmp::PartialEq::eq$|str::traits::.*eq$", c.path or "") and any(f.str_of(a) is not None for a in c.args)])
+        if ncmp < 3:
+            continue
+        rest = tys[1:]
+        if len(rest) == 1 and rest[0].endswith("script::Value"):
+            out.setdefault("unary", f)
+        elif len(rest) == 2 and all(t.endswith("script::Value") for t in rest):
+            out.setdefault("binary", f)
+        elif len(rest) == 1 and "Vec<script::Value" in rest[0]:
+            out.setdefault("postfix", f)
+    return out
+
+
 def detect_param_token_rules(rule_fns):
     """h(text: &str) whose body is  tag(text)  followed by look-aheads only (at least one): a token with a word boundary"""
     PARAM_TOKEN_RULES.clear()
@@ -275,6 +336,7 @@ def run(chk, prog):
     has_ws = {}
     detect_param_token_rules(rule_fns)
     detect_wrapper_rules(prog, rule_fns)
+    CT = ctor_fns(prog)
     for name, f in rule_fns.items():
         if name in PARAM_TOKEN_RULES:
             continue
@@ -477,7 +539,7 @@ def run(chk, prog):
         elif t == "seq":
             for k in p[1]:
                 alt_groups(k, out)
-        elif t in ("many", "opt", "ws"):
+        elif t in ("many", "opt", "ws", "lex"):
             alt_groups(p[1], out)
         elif t == "sep":
             alt_groups(p[1], out)
@@ -553,7 +615,7 @@ def run(chk, prog):
         for g in prog.children(f):
             for h in prog.children(g):
                 for c in h.calls:
-                    if c.name.endswith("parser::parse2"):
+                    if "binary" in CT and c.local_key() == CT["binary"].key:
                         a1 = h.trace(c.args[1]["m"][0] if "m" in c.args[1] else c.args[1].get("c", [None])[0])
                         a2 = h.trace(c.args[2]["m"][0] if "m" in c.args[2] else c.args[2].get("c", [None])[0])
                         r1 = a1[-1]
@@ -582,8 +644,8 @@ def run(chk, prog):
     chk.floor("R3-ternary", ntern, 1, "rules spelling the documented `? :` operator")
 
     # ------------------------------------------------------------ R4 constructor tables
-    def arms(fname):
-        f = rule_fns.get(fname)
+    def arms(role):
+        f = CT.get(role)
         out = {}
         if not f:
             return out
@@ -595,12 +657,15 @@ def run(chk, prog):
                         out[s] = c
         return out
 
-    a1 = arms("parse1")
-    a2 = arms("parse2")
-    am = arms("parse_many")
-    chk.floor("R4-ctor", len(a2), 20, "string arms in parse2")
-    chk.floor("R4-ctor", len(a1), 3, "string arms in parse1")
-    chk.floor("R4-ctor", len(am), 3, "string arms in parse_many")
+    a1 = arms("unary")
+    a2 = arms("binary")
+    am = arms("postfix")
+    N2 = CT["binary"].path.split("::")[-1] if "binary" in CT else "binary-constructor"
+    N1 = CT["unary"].path.split("::")[-1] if "unary" in CT else "unary-constructor"
+    NM = CT["postfix"].path.split("::")[-1] if "postfix" in CT else "postfix-constructor"
+    chk.floor("R4-ctor", len(a2), 20, "string arms in the binary tree constructor")
+    chk.floor("R4-ctor", len(a1), 3, "string arms in the unary tree constructor")
+    chk.floor("R4-ctor", len(am), 3, "string arms in the postfix tree constructor")
     bin_lits = set()
     for name, sh in ladder:
         for t, nc in sh["toks"]:
@@ -609,23 +674,23 @@ def run(chk, prog):
         ok = t in a2
         chk.instance("R4-ctor", "milu/src/parser.rs", "binary literal %r has a parse2 arm" % t, ok)
         if not ok:
-            chk.finding("R4-ctor", P + "parse2", "missing-arm", t, rule_fns["parse2"].file,
+            chk.finding("R4-ctor", P + N2, "missing-arm", t, "milu/src/parser.rs",
                         "grammar literal %r has no arm in parse2: parsing it reaches the default arm, which panics" % t)
     for t in sorted(a2):
         ok = t in bin_lits
         chk.instance("R4-ctor", "milu/src/parser.rs", "parse2 arm %r is produced by the grammar" % t, ok)
         if not ok:
-            chk.finding("R4-ctor", P + "parse2", "dead-arm", t, rule_fns["parse2"].file,
+            chk.finding("R4-ctor", P + N2, "dead-arm", t, "milu/src/parser.rs",
                         "parse2 has a constructor arm for %r but no grammar level produces that literal: the operator "
                         "exists in the evaluator yet cannot be written" % t)
     for t, _ in utoks:
         ok = t in a1
         chk.instance("R4-ctor", "milu/src/parser.rs", "unary literal %r has a parse1 arm" % t, ok)
         if not ok:
-            chk.finding("R4-ctor", P + "parse1", "missing-arm", t, "milu/src/parser.rs", "unary literal %r has no arm in parse1 (default arm panics)" % t)
+            chk.finding("R4-ctor", P + N1, "missing-arm", t, "milu/src/parser.rs", "unary literal %r has no arm in parse1 (default arm panics)" % t)
     for t in sorted(a1):
         if t not in [x for x, _ in utoks]:
-            chk.finding("R4-ctor", P + "parse1", "dead-arm", t, "milu/src/parser.rs", "parse1 arm %r is not produced by the grammar" % t)
+            chk.finding("R4-ctor", P + N1, "dead-arm", t, "milu/src/parser.rs", "parse1 arm %r is not produced by the grammar" % t)
     # parse_many: the op names come from Span::new("index") etc. in op_index/op_access/op_call
     produced = set()
     for n, f in rule_fns.items():
@@ -639,10 +704,10 @@ def run(chk, prog):
         ok = t in am
         chk.instance("R4-ctor", "milu/src/parser.rs", "postfix op name %r has a parse_many arm" % t, ok)
         if not ok:
-            chk.finding("R4-ctor", P + "parse_many", "missing-arm", t, "milu/src/parser.rs", "postfix op %r has no arm in parse_many (default arm panics)" % t)
+            chk.finding("R4-ctor", P + NM, "missing-arm", t, "milu/src/parser.rs", "postfix op %r has no arm in parse_many (default arm panics)" % t)
     for t in sorted(am):
         if t not in produced:
-            chk.finding("R4-ctor", P + "parse_many", "dead-arm", t, "milu/src/parser.rs", "parse_many arm %r is never produced" % t)
+            chk.finding("R4-ctor", P + NM, "dead-arm", t, "milu/src/parser.rs", "parse_many arm %r is never produced" % t)
 
     # ------------------------------------------------------------ R5 blank-insensitivity
     # heads: positions that inherit the rule's own leading ws
@@ -660,6 +725,8 @@ def run(chk, prog):
         elif t == "seq":
             for i, k in enumerate(p[1]):
                 check_tokens(name, k, at_head and i == 0, under_ws and i == 0, report)
+        elif t in ("lex", "look"):
+            return   # inside recognize()/not()/peek(): one lexical token, no skipping inside it
         elif t in ("many", "opt"):
             check_tokens(name, p[1], at_head, under_ws, report)
         elif t == "sep":
@@ -678,9 +745,59 @@ def run(chk, prog):
         expr_rules.add(n)
         for r in refs(pegs[n]):
             dq.append(r)
-    LEXICAL = {"hexadecimal", "octal", "binary", "decimal", "integer", "identifier", "string", "template", "boolean",
-               "eol_comment", "inline_comment", "blank"}
-
+    # lexical rules, decided structurally: (a) the skipper itself = what ws() runs before its argument, and everything it refers to;
+    # (b) rules that are referred to only from inside recognize()/not()/peek() or from other lexical rules (greatest fixpoint);
+    # (c) rules that consist of one recognize()d token.  Their inner tokens are not token boundaries of the expression grammar.
+    def refs_ctx(p, lexctx, out):
+        t = p[0]
+        if t == "ref":
+            out.append((p[1], lexctx))
+        elif t in ("alt", "seq"):
+            for k in p[1]:
+                refs_ctx(k, lexctx, out)
+        elif t in ("many", "opt", "ws"):
+            refs_ctx(p[1], lexctx, out)
+        elif t in ("lex", "look"):
+            refs_ctx(p[1], True, out)
+        elif t == "sep":
+            refs_ctx(p[1], lexctx, out)
+            refs_ctx(p[2], lexctx, out)
+        return out
+    skipper = set()
+    wsf_ = rule_fns.get("ws") or next((f_ for n_, f_ in rule_fns.items() if n_ in WRAPPER_RULES and False), None)
+    if wsf_ is not None:
+        t_ = et.build_local(wsf_, 0)
+        if t_[0] == "call" and t_[1] == "sequence::preceded" and t_[3] and t_[3][0][0] == "fn" and t_[3][0][1].startswith("parser::"):
+            dq2 = [t_[3][0][1][len("parser::"):]]
+            while dq2:
+                n_ = dq2.pop()
+                if n_ in skipper or n_ not in pegs:
+                    continue
+                skipper.add(n_)
+                dq2 += [r_ for r_, _ in refs_ctx(pegs[n_], False, [])]
+    LEXICAL = set(pegs) - {"root"}
+    changed_ = True
+    allrefs = {n_: refs_ctx(g_, False, []) for n_, g_ in pegs.items()}
+    referenced = set(r_ for lst in allrefs.values() for r_, _ in lst)
+    while changed_:
+        changed_ = False
+        for n_ in sorted(LEXICAL):
+            if n_ in skipper:
+                continue
+            if n_ not in referenced:
+                LEXICAL.discard(n_)
+                changed_ = True
+                continue
+            for src, lst in allrefs.items():
+                if src in LEXICAL or src in skipper:
+                    continue
+                if any(r_ == n_ and not lx for r_, lx in lst):
+                    LEXICAL.discard(n_)
+                    changed_ = True
+                    break
+    LEXICAL |= skipper
+    # external lexers (string / template literal modules) are single tokens by construction
+    LEXICAL |= set(n_ for n_, g_ in pegs.items() if strip(g_)[0] == "unknown")
     def report(name, p, ok):
         ntok[0] += 1
         chk.instance("R5-blank", rule_fns[name].file, "token %r in %s is preceded by the blank skipper" % (p[1], name), ok)
@@ -770,6 +887,6 @@ def _builtins(p, out=None):
     elif t in ("alt", "seq"):
         for k in p[1]:
             _builtins(k, out)
-    elif t in ("many", "opt", "ws"):
+    elif t in ("many", "opt", "ws", "lex"):
         _builtins(p[1], out)
     return out
